@@ -26,11 +26,21 @@
    state and runs only when the count reached `retired`; a validated holder of state x keeps
    the finalizers of all states >= x from running, so every handle it can reach is open.
 
-   Remaining caveat (visible in CloseInv2.allowed): ErrSealed is listed as a possible outcome
-   of StoreLogs; that it cannot occur with a single writer (a sealed tail is always rotated
-   before the next append) is not proved here.  The implementation side is judged by the
-   oracles of the sched14 stream (recover(), watchdog, goroutine count, handle accounting,
-   two reopen cycles). *)
+   NOT PROVED (the only remaining gap of C14): C14_racing_calls_strict =
+       forall w progs extra s, single_writer w progs extra -> reach progs extra s ->
+       forall t th res, nth_error (ths s) t = Some th -> t <> length progs -> In res (t_outs th) ->
+         res <> ErrSealed
+   i.e. StoreLogs never finds the tail sealed (CloseInv2.allowed still lists ErrSealed for
+   OStore).  Missing invariant: if the tail of the current open version is sealed then
+   (a) the thread that sealed it is still between its seal and its trigger / its commit
+   (PApp1..PTrig, or PM3 of a tail truncation), or (b) awaitRotate is set, or (c) Close is
+   between closing the await channel and swapping the state (it holds writeMu), or (d) the
+   closed flag is set and the writer is not inside a call past its closed check; and the
+   rotation goroutine keeps the new tail unsealed until it resets awaitRotate.
+   The implementation side is judged by the oracles of the sched14 stream (recover(),
+   watchdog, goroutine count, handle accounting, two reopen cycles; an `errsealed` outcome
+   of the implementation would be a tie mismatch only if the model disagreed, and no line
+   of the stream produces it on either side). *)
 From Coq Require Import List Arith Bool Lia.
 From RW Require Import Conc.Sys Conc.Close Conc.CloseInv Conc.CloseInv2 Conc.CloseLive Conc.CloseSafe Conc.CloseReach
      Conc.CloseThm Conc.CloseThm2.
